@@ -55,10 +55,40 @@ fn violation_record(prop: &str, scn: &Value, inst: &Instance, v: &Value) -> Valu
     json!({"property": prop, "instance": inst.to_json(), "violation": v, "scenario": scn})
 }
 
+/// Per-instance summary kept after a run (the recorded operations themselves are dropped at once).
+struct Summary {
+    calls: usize,
+    steps: usize,
+    slack: bool,
+    tool_error: Option<String>,
+    enc_ops: usize,
+    viols: Vec<Value>,
+}
+
+fn summarize(scn: &Value, out: Outcome) -> Summary {
+    let mut vs: Vec<Value> = out.violations.iter().map(|v| v.to_json()).collect();
+    let reuse_applies = scn.get("noreuse").and_then(|x| x.as_bool()).unwrap_or(true);
+    for (what, detail) in check_aead_ops(&out.ops) {
+        if what == "nonce_reuse" && !reuse_applies {
+            continue;
+        }
+        vs.push(json!({"step": -1, "op": "aead_ops", "what": what, "expected": "no (key,nonce) reuse; reserved nonce unused",
+                       "observed": detail, "cause": ""}));
+    }
+    Summary {
+        calls: out.calls,
+        steps: out.steps_run,
+        slack: out.diverged_slack,
+        tool_error: out.tool_error,
+        enc_ops: out.ops.iter().filter(|o| matches!(o, crate::resolver::Op::Encrypt { .. })).count(),
+        viols: vs,
+    }
+}
+
 pub fn main(o: &Opts) -> Result<i32, String> {
+    use std::io::BufRead;
     crate::prims::self_check()?;
     let prop = o.req("prop")?.to_string();
-    let scns = read_tlc_json(o.req("scn")?, "SCN")?;
     let names = read_tlc_json(o.req("names")?, "NAME")?;
     let seed = o.num("seed", 1);
     let per_scn = o.num("per-scn", 3) as usize; // 0 = all names of the class
@@ -67,6 +97,7 @@ pub fn main(o: &Opts) -> Result<i32, String> {
     let replay_dir = o.get("replay-dir").unwrap_or("replays").to_string();
     let max_viol = o.num("max-violations", 50) as usize;
     let dh_filter = o.get("dh").map(|s| s.to_string());
+    let chunk = o.num("chunk", 4000) as usize;
 
     // class -> names
     let mut by_class: HashMap<String, Vec<&Value>> = HashMap::new();
@@ -75,214 +106,231 @@ pub fn main(o: &Opts) -> Result<i32, String> {
         by_class.entry(format!("T|{}", n["oneway"])).or_default().push(n);
     }
     let mut rng = Rng(seed ^ 0x5eed);
-    let mut jobs: Vec<Job> = vec![];
     let mut no_names = 0usize;
-    for (si, scn) in scns.iter().enumerate() {
-        let mut eps = endpoint_classes(scn);
-        if let Some(nm) = scn.get("name").and_then(|n| n.as_str()) {
-            // the scenario names its protocol itself (names outside the 13 344-name table: psk5.., fallback)
-            let parts: Vec<&str> = nm.split('_').collect();
-            if parts.len() != 5 {
-                return Err(format!("scenario name {nm}"));
-            }
-            let ps = PrimSet {
-                dh: DhAlg::parse(parts[2]).ok_or("scn dh")?,
-                cipher: CipherAlg::parse(parts[3]).ok_or("scn cipher")?,
-                hash: HashAlg::parse(parts[4]).ok_or("scn hash")?,
-            };
-            let mut nmap = HashMap::new();
-            nmap.insert("*".to_string(), nm.to_string());
-            jobs.push(Job {
-                scn_idx: si,
-                inst: Instance {
-                    names: nmap,
-                    ps,
-                    backends: HashMap::new(),
-                    seed: seed.wrapping_mul(1_000_003).wrapping_add(si as u64),
-                    prologue_len: PROLOGUE_LENS[(si + seed as usize) % PROLOGUE_LENS.len()],
-                    psks: vec![],
-                },
-            });
-            continue;
-        }
-        if scn["family"].as_str() == Some("transport") {
-            eps = vec![("*".to_string(), format!("T|{}", scn["prm"]["oneway"]))];
-        }
-        if eps.is_empty() {
-            continue;
-        }
-        // the primary class decides the primitive set; other endpoints (mismatch scenarios) get a
-        // name of THEIR class with the same primitives where one exists
-        let primary = &eps[0].1;
-        let mut cands: Vec<&Value> = by_class.get(primary).cloned().unwrap_or_default();
-        if let Some(d) = &dh_filter {
-            cands.retain(|n| n["dh"].as_str() == Some(d.as_str()));
-        }
-        if backends_mode != "default" {
-            cands.retain(|n| primset_of(n).map(|p| ring_supports(&p)).unwrap_or(false));
-        }
-        if cands.is_empty() {
-            no_names += 1;
-            continue;
-        }
-        let picks: Vec<&Value> = if per_scn == 0 || per_scn >= cands.len() {
-            cands.clone()
-        } else {
-            // rotate through the class so that all primitive sets get used across scenarios
-            let start = rng.below(cands.len() as u64) as usize;
-            let stride = (cands.len() / per_scn).max(1);
-            (0..per_scn).map(|k| cands[(start + k * stride) % cands.len()]).collect()
-        };
-        for (pi, n) in picks.iter().enumerate() {
-            let ps = primset_of(n).ok_or("bad name row")?;
-            let mut nm = HashMap::new();
-            nm.insert("*".to_string(), n["name"].as_str().unwrap_or("").to_string());
-            for (ep, ck) in &eps {
-                if ck != primary {
-                    // same primitives, other class
-                    let alt = by_class.get(ck).and_then(|v| {
-                        v.iter().find(|x| x["dh"] == n["dh"] && x["cipher"] == n["cipher"] && x["hash"] == n["hash"])
-                    });
-                    match alt {
-                        Some(a) => {
-                            nm.insert(ep.clone(), a["name"].as_str().unwrap_or("").to_string());
-                        },
-                        None => {},
-                    }
-                } else {
-                    nm.insert(ep.clone(), n["name"].as_str().unwrap_or("").to_string());
-                }
-            }
-            let assignments: Vec<HashMap<String, Backend>> = match backends_mode.as_str() {
-                "default" => vec![HashMap::new()],
-                _ => {
-                    let opts = [Backend::Default, Backend::RingDefault, Backend::DefaultRing];
-                    let mut v = vec![];
-                    for a in opts {
-                        for b in opts {
-                            let mut m = HashMap::new();
-                            m.insert("I".to_string(), a);
-                            m.insert("R".to_string(), b);
-                            v.push(m);
-                        }
-                    }
-                    if backends_mode == "mix-sample" {
-                        let k = rng.below(v.len() as u64) as usize;
-                        let k2 = (k + 4) % v.len();
-                        vec![v[k].clone(), v[k2].clone(), v[1].clone()]
-                    } else {
-                        v
-                    }
-                },
-            };
-            for (ai, asg) in assignments.into_iter().enumerate() {
-                jobs.push(Job {
-                    scn_idx: si,
-                    inst: Instance {
-                        names: nm.clone(),
-                        ps,
-                        backends: asg,
-                        seed: seed.wrapping_mul(1_000_003).wrapping_add((si * 131 + pi * 17 + ai) as u64),
-                        prologue_len: PROLOGUE_LENS[(si + pi + ai + seed as usize) % PROLOGUE_LENS.len()],
-                        psks: n["psks"].as_array().map(|a| a.iter().filter_map(|x| x.as_u64().map(|v| v as u8)).collect()).unwrap_or_default(),
-                    },
-                });
-            }
-        }
-    }
-
-    let next = AtomicUsize::new(0);
-    let results: Mutex<Vec<(usize, Outcome)>> = Mutex::new(vec![]);
-    std::thread::scope(|s| {
-        for _ in 0..threads.max(1) {
-            s.spawn(|| loop {
-                let j = next.fetch_add(1, Ordering::SeqCst);
-                if j >= jobs.len() {
-                    break;
-                }
-                let job = &jobs[j];
-                let out = run_instance(&scns[job.scn_idx], &job.inst);
-                results.lock().unwrap().push((j, out));
-            });
-        }
-    });
-    let mut results = results.into_inner().unwrap();
-    results.sort_by_key(|r| r.0);
-
+    let mut n_scn = 0usize;
+    let mut n_inst = 0usize;
     let mut calls = 0usize;
     let mut steps = 0usize;
     let mut slack = 0usize;
     let mut tool_errors: Vec<String> = vec![];
     let mut viols: Vec<Value> = vec![];
     let mut distinct_names: BTreeMap<String, usize> = BTreeMap::new();
-    let mut distinct_cases: std::collections::HashSet<String> = std::collections::HashSet::new();
+    let mut distinct_cases = 0usize;
     let mut enc_ops = 0usize;
     let mut sig_count: HashMap<String, usize> = HashMap::new();
     let mut viol_total = 0usize;
+    let mut samples: Vec<Value> = vec![];
     std::fs::create_dir_all(format!("{replay_dir}/{prop}")).ok();
-    for (j, out) in &results {
-        let job = &jobs[*j];
-        let scn = &scns[job.scn_idx];
-        calls += out.calls;
-        steps += out.steps_run;
-        if out.diverged_slack {
-            slack += 1;
-        }
-        if let Some(e) = &out.tool_error {
-            if tool_errors.len() < 5 {
-                tool_errors.push(format!("scenario {} inst {}: {e}", job.scn_idx, job.inst.name_for("*")));
+
+    // scenarios are streamed in chunks: TLC dumps can be gigabytes
+    let f = std::fs::File::open(o.req("scn")?).map_err(|e| e.to_string())?;
+    let mut lines = std::io::BufReader::with_capacity(1 << 20, f).lines();
+    let prefix = "<<\"SCN\", ";
+    loop {
+        let mut scns: Vec<Value> = vec![];
+        while scns.len() < chunk {
+            match lines.next() {
+                None => break,
+                Some(line) => {
+                    let line = line.map_err(|e| e.to_string())?;
+                    if let Some(rest) = line.strip_prefix(prefix) {
+                        let inner = rest.strip_suffix(">>").ok_or("TLC line without >>")?;
+                        let st: String = serde_json::from_str(inner).map_err(|e| format!("TLC string: {e}"))?;
+                        scns.push(serde_json::from_str(&st).map_err(|e| format!("TLC json: {e}"))?);
+                    }
+                },
             }
         }
-        *distinct_names.entry(job.inst.name_for("*").to_string()).or_default() += 1;
-        distinct_cases.insert(format!("{}#{}", job.scn_idx, job.inst.name_for("*")));
-        enc_ops += out.ops.iter().filter(|o| matches!(o, crate::resolver::Op::Encrypt { .. })).count();
-        let mut vs: Vec<Value> = out.violations.iter().map(|v| v.to_json()).collect();
-        let reuse_applies = scn.get("noreuse").and_then(|x| x.as_bool()).unwrap_or(true);
-        for (what, detail) in check_aead_ops(&out.ops) {
-            if what == "nonce_reuse" && !reuse_applies {
+        if scns.is_empty() {
+            break;
+        }
+        let base = n_scn;
+        n_scn += scns.len();
+        let mut jobs: Vec<Job> = vec![];
+        for (sl, scn) in scns.iter().enumerate() {
+            let si = base + sl;
+            let mut eps = endpoint_classes(scn);
+            if let Some(nm) = scn.get("name").and_then(|n| n.as_str()) {
+                // the scenario names its protocol itself (names outside the 13 344-name table: psk5.., fallback, psk03)
+                let parts: Vec<&str> = nm.split('_').collect();
+                if parts.len() != 5 {
+                    return Err(format!("scenario name {nm}"));
+                }
+                let ps = PrimSet {
+                    dh: DhAlg::parse(parts[2]).ok_or("scn dh")?,
+                    cipher: CipherAlg::parse(parts[3]).ok_or("scn cipher")?,
+                    hash: HashAlg::parse(parts[4]).ok_or("scn hash")?,
+                };
+                let mut nmap = HashMap::new();
+                nmap.insert("*".to_string(), nm.to_string());
+                jobs.push(Job {
+                    scn_idx: sl,
+                    inst: Instance {
+                        names: nmap,
+                        ps,
+                        backends: HashMap::new(),
+                        seed: seed.wrapping_mul(1_000_003).wrapping_add(si as u64),
+                        prologue_len: PROLOGUE_LENS[(si + seed as usize) % PROLOGUE_LENS.len()],
+                        psks: vec![],
+                    },
+                });
                 continue;
             }
-            vs.push(json!({"step": -1, "op": "aead_ops", "what": what, "expected": "no (key,nonce) reuse; reserved nonce unused",
-                           "observed": detail, "cause": ""}));
-        }
-        for v in vs {
-            viol_total += 1;
-            // keep at most 2 replay files per distinct signature (call, observable, cause label)
-            let sig = format!("{}|{}|{}", v["op"], v["what"], v["cause"]);
-            let c = sig_count.entry(sig).or_default();
-            *c += 1;
-            if *c > 2 || viols.len() >= max_viol {
+            if scn["family"].as_str() == Some("transport") {
+                eps = vec![("*".to_string(), format!("T|{}", scn["prm"]["oneway"]))];
+            }
+            if eps.is_empty() {
                 continue;
             }
-            let rec = violation_record(&prop, scn, &job.inst, &v);
-            let body = serde_json::to_vec(&rec).unwrap();
-            let path = format!("{replay_dir}/{prop}/{}.json", sha_hex(&body));
-            std::fs::write(&path, &body).map_err(|e| e.to_string())?;
-            let mut vv = v.clone();
-            vv["replay"] = json!(path);
-            vv["family"] = scn["family"].clone();
-            vv["pat"] = scn["prm"]["pp"]["pat"].clone();
-            vv["psks"] = scn["prm"]["pp"]["psks"].clone();
-            vv["name"] = json!(job.inst.name_for("*"));
-            viols.push(vv);
+            // the primary class decides the primitive set; other endpoints get a name of THEIR class with
+            // the same primitives where one exists
+            let primary = &eps[0].1;
+            let mut cands: Vec<&Value> = by_class.get(primary).cloned().unwrap_or_default();
+            if let Some(d) = &dh_filter {
+                cands.retain(|n| n["dh"].as_str() == Some(d.as_str()));
+            }
+            if backends_mode != "default" {
+                cands.retain(|n| primset_of(n).map(|p| ring_supports(&p)).unwrap_or(false));
+            }
+            if cands.is_empty() {
+                no_names += 1;
+                continue;
+            }
+            let picks: Vec<&Value> = if per_scn == 0 || per_scn >= cands.len() {
+                cands.clone()
+            } else {
+                // rotate through the class so that all primitive sets get used across scenarios
+                let start = rng.below(cands.len() as u64) as usize;
+                let stride = (cands.len() / per_scn).max(1);
+                (0..per_scn).map(|k| cands[(start + k * stride) % cands.len()]).collect()
+            };
+            for (pi, n) in picks.iter().enumerate() {
+                let ps = primset_of(n).ok_or("bad name row")?;
+                let mut nm = HashMap::new();
+                nm.insert("*".to_string(), n["name"].as_str().unwrap_or("").to_string());
+                for (ep, ck) in &eps {
+                    if ck != primary {
+                        let alt = by_class.get(ck).and_then(|v| {
+                            v.iter().find(|x| x["dh"] == n["dh"] && x["cipher"] == n["cipher"] && x["hash"] == n["hash"])
+                        });
+                        if let Some(a) = alt {
+                            nm.insert(ep.clone(), a["name"].as_str().unwrap_or("").to_string());
+                        }
+                    } else {
+                        nm.insert(ep.clone(), n["name"].as_str().unwrap_or("").to_string());
+                    }
+                }
+                let assignments: Vec<HashMap<String, Backend>> = match backends_mode.as_str() {
+                    "default" => vec![HashMap::new()],
+                    _ => {
+                        let opts = [Backend::Default, Backend::RingDefault, Backend::DefaultRing];
+                        let mut v = vec![];
+                        for a in opts {
+                            for b in opts {
+                                let mut m = HashMap::new();
+                                m.insert("I".to_string(), a);
+                                m.insert("R".to_string(), b);
+                                v.push(m);
+                            }
+                        }
+                        if backends_mode == "mix-sample" {
+                            let k = rng.below(v.len() as u64) as usize;
+                            let k2 = (k + 4) % v.len();
+                            vec![v[k].clone(), v[k2].clone(), v[1].clone()]
+                        } else {
+                            v
+                        }
+                    },
+                };
+                for (ai, asg) in assignments.into_iter().enumerate() {
+                    jobs.push(Job {
+                        scn_idx: sl,
+                        inst: Instance {
+                            names: nm.clone(),
+                            ps,
+                            backends: asg,
+                            seed: seed.wrapping_mul(1_000_003).wrapping_add((si * 131 + pi * 17 + ai) as u64),
+                            prologue_len: PROLOGUE_LENS[(si + pi + ai + seed as usize) % PROLOGUE_LENS.len()],
+                            psks: n["psks"].as_array().map(|a| a.iter().filter_map(|x| x.as_u64().map(|v| v as u8)).collect()).unwrap_or_default(),
+                        },
+                    });
+                }
+            }
         }
-    }
-    // a few samples of what was actually run
-    let mut samples = vec![];
-    for j in [0usize, jobs.len() / 2, jobs.len().saturating_sub(1)] {
-        if let Some(job) = jobs.get(j) {
+
+        let next = AtomicUsize::new(0);
+        let results: Mutex<Vec<(usize, Summary)>> = Mutex::new(vec![]);
+        std::thread::scope(|s| {
+            for _ in 0..threads.max(1) {
+                s.spawn(|| loop {
+                    let j = next.fetch_add(1, Ordering::SeqCst);
+                    if j >= jobs.len() {
+                        break;
+                    }
+                    let job = &jobs[j];
+                    let scn = &scns[job.scn_idx];
+                    let sum = summarize(scn, run_instance(scn, &job.inst));
+                    results.lock().unwrap().push((j, sum));
+                });
+            }
+        });
+        let mut results = results.into_inner().unwrap();
+        results.sort_by_key(|r| r.0);
+        for (j, sum) in &results {
+            let job = &jobs[*j];
             let scn = &scns[job.scn_idx];
-            let ops: Vec<String> = scn["steps"]
-                .as_array()
-                .map(|a| a.iter().map(|s| format!("{}:{}", s["ep"].as_str().unwrap_or(""), s["op"].as_str().unwrap_or(""))).collect())
-                .unwrap_or_default();
-            samples.push(json!({"family": scn["family"], "prm": scn["prm"], "name": job.inst.name_for("*"),
-                                "backends": job.inst.to_json()["backends"], "steps": ops}));
+            calls += sum.calls;
+            steps += sum.steps;
+            if sum.slack {
+                slack += 1;
+            }
+            if let Some(e) = &sum.tool_error {
+                if tool_errors.len() < 5 {
+                    tool_errors.push(format!("scenario {} inst {}: {e}", base + job.scn_idx, job.inst.name_for("*")));
+                }
+            }
+            *distinct_names.entry(job.inst.name_for("*").to_string()).or_default() += 1;
+            distinct_cases += 1; // (scenario, name, backend assignment) triples are distinct by construction
+            enc_ops += sum.enc_ops;
+            for v in &sum.viols {
+                viol_total += 1;
+                // keep at most 2 replay files per distinct signature (call, observable, cause label)
+                let sig = format!("{}|{}|{}", v["op"], v["what"], v["cause"]);
+                let c = sig_count.entry(sig).or_default();
+                *c += 1;
+                if *c > 2 || viols.len() >= max_viol {
+                    continue;
+                }
+                let rec = violation_record(&prop, scn, &job.inst, v);
+                let body = serde_json::to_vec(&rec).unwrap();
+                let path = format!("{replay_dir}/{prop}/{}.json", sha_hex(&body));
+                std::fs::write(&path, &body).map_err(|e| e.to_string())?;
+                let mut vv = v.clone();
+                vv["replay"] = json!(path);
+                vv["family"] = scn["family"].clone();
+                vv["pat"] = scn["prm"]["pp"]["pat"].clone();
+                vv["psks"] = scn["prm"]["pp"]["psks"].clone();
+                vv["name"] = json!(job.inst.name_for("*"));
+                viols.push(vv);
+            }
         }
+        // a few samples of what was actually run
+        if samples.len() < 3 {
+            if let Some(job) = jobs.get(jobs.len() / 2) {
+                let scn = &scns[job.scn_idx];
+                let ops: Vec<String> = scn["steps"]
+                    .as_array()
+                    .map(|a| a.iter().map(|s| format!("{}:{}", s["ep"].as_str().unwrap_or(""), s["op"].as_str().unwrap_or(""))).collect())
+                    .unwrap_or_default();
+                samples.push(json!({"family": scn["family"], "prm": scn["prm"], "name": job.inst.name_for("*"),
+                                    "backends": job.inst.to_json()["backends"], "steps": ops}));
+            }
+        }
+        n_inst += jobs.len();
     }
     let res = json!({
-        "prop": prop, "scenarios": scns.len(), "instances": jobs.len(), "steps": steps, "calls": calls,
-        "distinct_cases": distinct_cases.len(), "distinct_names": distinct_names.len(),
+        "prop": prop, "scenarios": n_scn, "instances": n_inst, "steps": steps, "calls": calls,
+        "distinct_cases": distinct_cases, "distinct_names": distinct_names.len(),
         "slack_diverged": slack, "scenarios_without_names": no_names, "encrypt_ops_observed": enc_ops,
         "tool_errors": tool_errors, "violations": viols, "violations_total": viol_total, "samples": samples,
     });
@@ -291,13 +339,13 @@ pub fn main(o: &Opts) -> Result<i32, String> {
     }
     println!(
         "{}",
-        json!({"prop": prop, "scenarios": scns.len(), "instances": jobs.len(), "calls": calls,
+        json!({"prop": prop, "scenarios": n_scn, "instances": n_inst, "calls": calls,
                "violations": res["violations"].as_array().map(|a| a.len()), "tool_errors": res["tool_errors"]})
     );
     if !res["tool_errors"].as_array().map(|a| a.is_empty()).unwrap_or(true) {
         return Err(format!("tool errors: {}", res["tool_errors"]));
     }
-    if jobs.is_empty() {
+    if n_inst == 0 {
         return Err("no instances were run".into());
     }
     Ok(if res["violations"].as_array().map(|a| a.is_empty()).unwrap_or(true) { 0 } else { 1 })
